@@ -830,8 +830,14 @@ func (e *mkraccEnv) scnDump() string {
 		acl = append(acl, n+":"+JoinOr(rs, "+"))
 	}
 	sort.Strings(acl)
-	return fmt.Sprintf("rec=%s esc=%s sup=%s acl=%s", m.GetSupply().Amount, e.app.BankKeeper.GetBalance(e.sctx, maddr, mkraccScn).Amount,
-		e.app.BankKeeper.GetSupply(e.sctx, mkraccScn).Amount, JoinOr(acl, "|"))
+	var bals []string
+	for _, n := range []string{"A", "B", "D", "E"} {
+		if b := e.app.BankKeeper.GetBalance(e.sctx, e.addr["S"+n], mkraccScn).Amount; !b.IsZero() {
+			bals = append(bals, n+":"+b.String())
+		}
+	}
+	return fmt.Sprintf("rec=%s esc=%s sup=%s acl=%s bals=%s", m.GetSupply().Amount, e.app.BankKeeper.GetBalance(e.sctx, maddr, mkraccScn).Amount,
+		e.app.BankKeeper.GetSupply(e.sctx, mkraccScn).Amount, JoinOr(acl, "|"), JoinOr(bals, "|"))
 }
 
 // scenario: a marker created and driven only by real messages of named accounts (A, B, D, E)
